@@ -244,8 +244,32 @@ def build(spec: dict) -> Problem:
         spec=spec, hermitian=hermitian, sizes=sizes, N=N, n_par=n_par, exact=exact, E=E, terms_f=terms_f,
         terms_x=terms_x, keep=keep, block_of=block_of, masks=masks, fd=fd, orders=orders,
     )
-    _encode(prob, rng)
+    _encode(prob, rng_for(*spec["case"], 7))
     return prob
+
+
+def from_terms(base: Problem, terms_f: dict, terms_x: dict | None, n_par: int, max_total: int | None = None, **spec_over) -> Problem:
+    """A problem with the same structure, basis designation and selection as `base` but other
+    perturbation terms (used by the metamorphic checks).  The encoding uses the same random
+    stream as `base`, so both executions see the same permutation / eigenbasis."""
+    import copy
+
+    spec = dict(base.spec)
+    spec.update(spec_over)
+    spec["n_par"] = n_par
+    if max_total is not None:
+        spec["max_total"] = max_total
+    z = (0,) * n_par
+    firsts = {tuple(int(x) for x in row) for row in np.eye(n_par, dtype=int)}
+    if set(terms_f) - {z} != firsts:
+        spec["container"] = "dict"
+    q = Problem(
+        spec=spec, hermitian=base.hermitian, sizes=list(base.sizes), N=base.N, n_par=n_par, exact=base.exact, E=list(base.E),
+        terms_f=terms_f, terms_x=terms_x, keep=base.keep.copy(), block_of=base.block_of.copy(), masks=dict(base.masks), fd=base.fd,
+        orders=orders_upto_total(n_par, spec["max_total"]),
+    )
+    _encode(q, rng_for(*spec["case"], 7))
+    return q
 
 
 # ---------------------------------------------------------------------------------------------
@@ -390,7 +414,7 @@ def _encode(p: Problem, rng):
                 rows.append(row)
             terms_enc[o] = rows
     # container
-    if spec["container"] == "list":
+    if spec["container"] == "list" and set(terms_enc) - {z} == {tuple(int(x) for x in row) for row in np.eye(p.n_par, dtype=int)}:
         ham = [terms_enc[z]] + [terms_enc[tuple(int(x) for x in row)] for row in np.eye(p.n_par, dtype=int)]
     else:
         ham = dict(terms_enc)
